@@ -87,6 +87,40 @@ pub open spec fn pso_ok(g: &Generator, op: OpcodeKind, a: RefArg, r: RefState) -
     ref_pre(op, a, r) && g.sim_pre(op)
 }
 
+/// the opcodes whose simulation writes the memo, and the key they write (any state, unsafe mode included)
+pub open spec fn memo_writer(op: OpcodeKind) -> bool {
+    op == OpcodeKind::Put || op == OpcodeKind::BinPut || op == OpcodeKind::LongBinPut || op == OpcodeKind::Memoize
+}
+pub open spec fn put_key(g: &Generator, op: OpcodeKind, a: RefArg) -> usize {
+    if op == OpcodeKind::Memoize { g.state.memo@.len() as usize } else { a.idx as usize }
+}
+/// the simulated memo keys are exactly 0..len (every mode: the emitters always write index == len)
+pub open spec fn sim_contig(g: &Generator) -> bool {
+    forall|k: usize| #[trigger] g.state.memo@.dom().contains(k) <==> (k as int) < g.state.memo@.len()
+}
+/// any-mode invariant of a generation call (budget below 2^32, as in safe mode): keys 0..len, len below the u32 range
+pub open spec fn contig_pre(g: &Generator) -> bool {
+    sim_contig(g) && g.state.memo@.len() < 0xffff_ffff
+}
+pub open spec fn contig_post(o: &Generator, n: &Generator) -> bool {
+    sim_contig(n) && n.state.memo@.len() <= o.state.memo@.len() + 1
+}
+pub proof fn lemma_contig_step(o: &Generator, n: &Generator, op: OpcodeKind, a: RefArg)
+    requires
+        sim_contig(o), o.state.memo@.dom().finite(),
+        n.state.memo@.dom() == o.state.memo@.dom()
+            || (memo_writer(op) && n.state.memo@.dom() == o.state.memo@.dom().insert(put_key(o, op, a))),
+        memo_writer(op) ==> put_key(o, op, a) as int == o.state.memo@.len(),
+    ensures contig_post(o, n)
+{
+    if n.state.memo@.dom() == o.state.memo@.dom() {
+        assert(n.state.memo@.len() == o.state.memo@.len());
+    } else {
+        assert(!o.state.memo@.dom().contains(put_key(o, op, a)));
+        assert(n.state.memo@.len() == o.state.memo@.len() + 1);
+    }
+}
+
 pub open spec fn le_u32(b: Seq<u8>) -> int {
     vstd::bytes::spec_u32_from_le_bytes(seq![b[0], b[1], b[2], b[3]]) as int
 }
@@ -569,6 +603,8 @@ impl Generator {
         pso_ok(old(self), opcode, a, r) ==> final(self).memo_kinds_rel(sim_step(opcode, a, r)), // @C03 @C17
         pso_ok(old(self), opcode, a, r) ==> final(self).rel(sim_step(opcode, a, r)),
         // in every state (unsafe mutations included): no panic, and only the simulated stack/memo change
+        final(self).state.memo@.dom() == old(self).state.memo@.dom()
+            || (memo_writer(opcode) && final(self).state.memo@.dom() == old(self).state.memo@.dom().insert(put_key(old(self), opcode, a))), // @C11 @C02
         final(self).output == old(self).output, // @C04 @C06
         final(self).same_config(old(self)), // @C05 @C10 @C08
 //@arm Dup
@@ -648,12 +684,14 @@ impl Generator {
 //@fn src/generator/emission.rs Generator::emit_opcode
 //@ghost Ghost(r): Ghost<RefState>
 //@props C01 C02 C03 C04 C05 C17 C09
-//@rewrite R14 process_stack_ops self.process_stack_ops($ARGS, Ghost(r), Ghost(RefArg { idx: 0 }))
+//@rewrite R14 process_stack_ops self.process_stack_ops($ARGS, Ghost(r), Ghost(RefArg { idx: 0 })); proof { if contig_pre(old(self)) && opcode != OpcodeKind::Put && opcode != OpcodeKind::BinPut && opcode != OpcodeKind::LongBinPut { lemma_contig_step(old(self), self, opcode, RefArg { idx: 0 }); } }
 //@contract
     requires
         old(self).rel(r),
         arg_link(opcode, None, RefArg { idx: 0 }), // @C17 @C04 @C09
     ensures
+        // (argument-less opcodes: MEMOIZE writes key == len, nothing else touches the memo)
+        contig_pre(old(self)) && opcode != OpcodeKind::Put && opcode != OpcodeKind::BinPut && opcode != OpcodeKind::LongBinPut ==> contig_post(old(self), final(self)), // @C11 @C02
         pso_ok(old(self), opcode, RefArg { idx: 0 }, r) ==> final(self).rel(sim_step(opcode, RefArg { idx: 0 }, r)), // @C17 @C01
         final(self).output@ == old(self).output@.push(ref_code(opcode) as u8), // @C04
         final(self).same_config(old(self)), // @C08
@@ -1770,10 +1808,10 @@ pub fn get_random_module(&self, source: &mut GenerationSource) -> (r: Result<VfT
         res is Ok, // @C09
         final(self).same_config(old(self)), // @C08
         exists|chunk: Seq<u8>| final(self).output@ == old(self).output@ + chunk && #[trigger] old(self).chunk_ok_u(chunk), // @C04 @C10 @C06
-        // C11 in any mode: a chosen body opcode contributes an opcode (not nothing).  BINGET is the one exception the
-        // any-mode contract cannot exclude: it needs a memo key below 256, which holds because the simulated memo keys
-        // are 0..len (proved in safe mode through `contig`, not stated for a drifted simulation)
-        opcode != OpcodeKind::BinGet ==> final(self).output@.len() > old(self).output@.len(), // @C11
+        // C11 in any mode: a chosen body opcode contributes an opcode (not nothing).  BINGET needs a memo key below 256:
+        // the simulated memo keys are 0..len in every mode (sim_contig, an invariant of generate_internal_u)
+        sim_contig(old(self)) || opcode != OpcodeKind::BinGet ==> final(self).output@.len() > old(self).output@.len(), // @C11
+        contig_pre(old(self)) ==> contig_post(old(self), final(self)), // @C11 @C02
 //@enddef
 
 //@fn src/generator/emission.rs Generator::emit_int as emit_int_u
@@ -1793,7 +1831,7 @@ pub fn get_random_module(&self, source: &mut GenerationSource) -> (r: Result<VfT
 //@subst (int & 0xFFFF).to_le_bytes() => vf_i32_to_le_bytes(int & 0xFFFF)
 //@subst bytes[..2].to_vec() => vf_first2_to_vec(&bytes)
 //@rewrite R17 int vf_int
-//@rewrite R14 process_stack_ops self.process_stack_ops($ARGS, Ghost(r), Ghost(RefArg { idx: 0 }))
+//@rewrite R14 process_stack_ops self.process_stack_ops($ARGS, Ghost(r), Ghost(RefArg { idx: 0 })); proof { if contig_pre(old(self)) { lemma_contig_step(old(self), self, $1, RefArg { idx: 0 }); } }
 //@contract
     requires
         old(self).rel(r),
@@ -1802,6 +1840,7 @@ pub fn get_random_module(&self, source: &mut GenerationSource) -> (r: Result<VfT
         final(self).same_config(old(self)), // @C08
         exists|chunk: Seq<u8>| final(self).output@ == old(self).output@ + chunk && #[trigger] old(self).chunk_ok_u(chunk), // @C04
         final(self).output@.len() > old(self).output@.len(), // @C11
+        contig_pre(old(self)) ==> contig_post(old(self), final(self)), // @C11 @C02
 //@before 1 Ok(())
         proof {
             let chunk = self.output@.subrange(old(self).output@.len() as int, self.output@.len() as int);
@@ -1820,7 +1859,7 @@ pub fn get_random_module(&self, source: &mut GenerationSource) -> (r: Result<VfT
 //@props C04 C06 C09 C10
 //@sigsubst Result<()> => Result<(), VfError>
 //@subst module.as_bytes().to_vec() => vf_to_vec(module.as_bytes())
-//@rewrite R14 process_stack_ops self.process_stack_ops($ARGS, Ghost(r), Ghost(RefArg { idx: 0 }))
+//@rewrite R14 process_stack_ops self.process_stack_ops($ARGS, Ghost(r), Ghost(RefArg { idx: 0 })); proof { if contig_pre(old(self)) { lemma_contig_step(old(self), self, $1, RefArg { idx: 0 }); } }
 //@contract
     requires
         old(self).rel(r),
@@ -1829,6 +1868,7 @@ pub fn get_random_module(&self, source: &mut GenerationSource) -> (r: Result<VfT
         final(self).same_config(old(self)), // @C08
         exists|chunk: Seq<u8>| final(self).output@ == old(self).output@ + chunk && #[trigger] old(self).chunk_ok_u(chunk), // @C04
         final(self).output@.len() > old(self).output@.len(), // @C11
+        contig_pre(old(self)) ==> contig_post(old(self), final(self)), // @C11 @C02
 //@before 1 Ok(())
         proof {
             let chunk = self.output@.subrange(old(self).output@.len() as int, self.output@.len() as int);
@@ -1846,7 +1886,7 @@ pub fn get_random_module(&self, source: &mut GenerationSource) -> (r: Result<VfT
 //@props C04 C06 C09 C10
 //@sigsubst Result<()> => Result<(), VfError>
 //@subst (0..len).map(|_| source.gen_u8()).collect() => vf_gen_u8_vec(source, len)
-//@rewrite R14? process_stack_ops self.process_stack_ops($ARGS, Ghost(r), Ghost(RefArg { idx: 0 }))
+//@rewrite R14? process_stack_ops self.process_stack_ops($ARGS, Ghost(r), Ghost(RefArg { idx: 0 })); proof { if contig_pre(old(self)) { lemma_contig_step(old(self), self, $1, RefArg { idx: 0 }); } }
 //@rewrite R4
 //@contract
     requires
@@ -1857,6 +1897,7 @@ pub fn get_random_module(&self, source: &mut GenerationSource) -> (r: Result<VfT
         final(self).same_config(old(self)), // @C08
         exists|chunk: Seq<u8>| final(self).output@ == old(self).output@ + chunk && #[trigger] old(self).chunk_ok_u(chunk), // @C04
         final(self).output@.len() > old(self).output@.len(), // @C11
+        contig_pre(old(self)) ==> contig_post(old(self), final(self)), // @C11 @C02
 //@before 1 Ok(())
         proof {
             let chunk = self.output@.subrange(old(self).output@.len() as int, self.output@.len() as int);
@@ -1874,7 +1915,7 @@ pub fn get_random_module(&self, source: &mut GenerationSource) -> (r: Result<VfT
 //@props C04 C06 C09 C10
 //@sigsubst Result<()> => Result<(), VfError>
 //@subst (0..len).map(|_| source.gen_ascii_char()).collect() => vf_gen_ascii_string(source, len)
-//@rewrite R14? process_stack_ops self.process_stack_ops($ARGS, Ghost(r), Ghost(RefArg { idx: 0 }))
+//@rewrite R14? process_stack_ops self.process_stack_ops($ARGS, Ghost(r), Ghost(RefArg { idx: 0 })); proof { if contig_pre(old(self)) { lemma_contig_step(old(self), self, $1, RefArg { idx: 0 }); } }
 //@substall? s.into_bytes() => vf_string_into_bytes(s)
 //@rewrite R4
 //@prelude
@@ -1888,6 +1929,7 @@ pub fn get_random_module(&self, source: &mut GenerationSource) -> (r: Result<VfT
         final(self).same_config(old(self)), // @C08
         exists|chunk: Seq<u8>| final(self).output@ == old(self).output@ + chunk && #[trigger] old(self).chunk_ok_u(chunk), // @C04
         final(self).output@.len() > old(self).output@.len(), // @C11
+        contig_pre(old(self)) ==> contig_post(old(self), final(self)), // @C11 @C02
 //@before 1 Ok(())
         proof {
             let chunk = self.output@.subrange(old(self).output@.len() as int, self.output@.len() as int);
@@ -1927,7 +1969,7 @@ pub fn get_random_module(&self, source: &mut GenerationSource) -> (r: Result<VfT
         proof { Generator::lemma_emit_u(old(self), g_out, self.output@, old(self).output@.len()); }
 //@arm Float
 //@subst format!("{}\n", value) => vf_fmt_f64_nl(value)
-//@rewrite R14? process_stack_ops self.process_stack_ops($ARGS, Ghost(r), Ghost(RefArg { idx: 0 }))
+//@rewrite R14? process_stack_ops self.process_stack_ops($ARGS, Ghost(r), Ghost(RefArg { idx: 0 })); proof { if contig_pre(old(self)) { lemma_contig_step(old(self), self, $1, RefArg { idx: 0 }); } }
 //@after 1 self.output.extend_from_slice(arg_bytes);
                     proof { gtext = arg_bytes@; assert(self.output@.subrange(old(self).output@.len() as int + 1, self.output@.len() as int) =~= gtext);
                             assert(self.output@.len() == old(self).output@.len() + 1 + gtext.len()); }
@@ -1949,7 +1991,7 @@ pub fn get_random_module(&self, source: &mut GenerationSource) -> (r: Result<VfT
         }
 //@arm BinFloat
 //@subst value.to_be_bytes() => vf_f64_to_be_bytes(value)
-//@rewrite R14? process_stack_ops self.process_stack_ops($ARGS, Ghost(r), Ghost(RefArg { idx: 0 }))
+//@rewrite R14? process_stack_ops self.process_stack_ops($ARGS, Ghost(r), Ghost(RefArg { idx: 0 })); proof { if contig_pre(old(self)) { lemma_contig_step(old(self), self, $1, RefArg { idx: 0 }); } }
 //@before 1 self.post_process_emission(
         proof { g_out = self.output@; }
 //@before 1 Ok(())
@@ -1985,7 +2027,7 @@ pub fn get_random_module(&self, source: &mut GenerationSource) -> (r: Result<VfT
         proof { Generator::lemma_emit_u(old(self), g_out, self.output@, old(self).output@.len()); }
 //@arm Put
 //@subst format!("{}\n", index) => vf_fmt_usize_nl(index)
-//@rewrite R14? process_stack_ops self.process_stack_ops($ARGS, Ghost(r), Ghost(RefArg { idx: index as int }))
+//@rewrite R14? process_stack_ops self.process_stack_ops($ARGS, Ghost(r), Ghost(RefArg { idx: index as int })); proof { if contig_pre(old(self)) { lemma_contig_step(old(self), self, $1, RefArg { idx: index as int }); } }
 //@after 1 self.output.extend_from_slice(arg_bytes);
                     proof { gtext = arg_bytes@; assert(self.output@.subrange(old(self).output@.len() as int + 1, self.output@.len() as int) =~= gtext);
                             assert(self.output@.len() == old(self).output@.len() + 1 + gtext.len()); }
@@ -2006,7 +2048,7 @@ pub fn get_random_module(&self, source: &mut GenerationSource) -> (r: Result<VfT
             Generator::lemma_emit_u(old(self), g_out, self.output@, old(self).output@.len());
         }
 //@arm BinPut
-//@rewrite R14? process_stack_ops self.process_stack_ops($ARGS, Ghost(r), Ghost(RefArg { idx: index as int }))
+//@rewrite R14? process_stack_ops self.process_stack_ops($ARGS, Ghost(r), Ghost(RefArg { idx: index as int })); proof { if contig_pre(old(self)) { lemma_contig_step(old(self), self, $1, RefArg { idx: index as int }); } }
 //@before 1 self.post_process_emission(
         proof { g_out = self.output@; }
 //@before 1 Ok(())
@@ -2024,7 +2066,7 @@ pub fn get_random_module(&self, source: &mut GenerationSource) -> (r: Result<VfT
         }
 //@arm LongBinPut
 //@substall index.to_le_bytes() => vf_u32_to_le_bytes(index)
-//@rewrite R14? process_stack_ops self.process_stack_ops($ARGS, Ghost(r), Ghost(RefArg { idx: index as int }))
+//@rewrite R14? process_stack_ops self.process_stack_ops($ARGS, Ghost(r), Ghost(RefArg { idx: index as int })); proof { if contig_pre(old(self)) { lemma_contig_step(old(self), self, $1, RefArg { idx: index as int }); } }
 //@before 1 self.post_process_emission(
         proof { g_out = self.output@; }
 //@before 1 Ok(())
@@ -2044,7 +2086,7 @@ pub fn get_random_module(&self, source: &mut GenerationSource) -> (r: Result<VfT
 //@subst self.state.memo.keys().copied().collect() => vf_keys(&self.state.memo)
 //@subst? keys.sort_unstable() => vf_sort_unstable(&mut keys)
 //@subst format!("{}\n", index) => vf_fmt_usize_nl(index)
-//@rewrite R14? process_stack_ops self.process_stack_ops($ARGS, Ghost(r), Ghost(RefArg { idx: index as int }))
+//@rewrite R14? process_stack_ops self.process_stack_ops($ARGS, Ghost(r), Ghost(RefArg { idx: index as int })); proof { if contig_pre(old(self)) { lemma_contig_step(old(self), self, $1, RefArg { idx: index as int }); } }
 //@after 1 self.output.extend_from_slice(arg_bytes);
                     proof { gtext = arg_bytes@; assert(self.output@.subrange(old(self).output@.len() as int + 1, self.output@.len() as int) =~= gtext);
                             assert(self.output@.len() == old(self).output@.len() + 1 + gtext.len()); }
@@ -2067,7 +2109,15 @@ pub fn get_random_module(&self, source: &mut GenerationSource) -> (r: Result<VfT
 //@arm BinGet
 //@subst self.state.memo.keys().filter(|&&k| k < 256).copied().collect() => vf_keys_below(&self.state.memo, 256)
 //@subst? valid_indices.sort_unstable() => vf_sort_unstable(&mut valid_indices)
-//@rewrite R14? process_stack_ops self.process_stack_ops($ARGS, Ghost(r), Ghost(RefArg { idx: index as int }))
+//@rewrite R14? process_stack_ops self.process_stack_ops($ARGS, Ghost(r), Ghost(RefArg { idx: index as int })); proof { if contig_pre(old(self)) { lemma_contig_step(old(self), self, $1, RefArg { idx: index as int }); } }
+//@before 1 if !valid_indices.is_empty()
+                proof {
+                    // keys are 0..len and the guard says len > 0: key 0 is below 256, so BINGET always has a candidate
+                    if sim_contig(old(self)) {
+                        assert(self.state.memo@.dom().contains(0usize));
+                        assert(valid_indices@.contains(0usize));
+                    }
+                }
 //@after 1 let index = valid_indices[
                     proof { assert(valid_indices@.contains(index)); }
 //@before 1 self.post_process_emission(
@@ -2089,7 +2139,7 @@ pub fn get_random_module(&self, source: &mut GenerationSource) -> (r: Result<VfT
 //@subst self.state.memo.keys().copied().collect() => vf_keys(&self.state.memo)
 //@subst? keys.sort_unstable() => vf_sort_unstable(&mut keys)
 //@subst (index as u32).to_le_bytes() => vf_u32_to_le_bytes(index as u32)
-//@rewrite R14? process_stack_ops self.process_stack_ops($ARGS, Ghost(r), Ghost(RefArg { idx: (index as u32) as int }))
+//@rewrite R14? process_stack_ops self.process_stack_ops($ARGS, Ghost(r), Ghost(RefArg { idx: (index as u32) as int })); proof { if contig_pre(old(self)) { lemma_contig_step(old(self), self, $1, RefArg { idx: (index as u32) as int }); } }
 //@before 1 self.post_process_emission(
         proof { g_out = self.output@; }
 //@before 1 Ok(())
@@ -2107,7 +2157,7 @@ pub fn get_random_module(&self, source: &mut GenerationSource) -> (r: Result<VfT
         }
 //@arm Ext1
 //@subst debug_assert!(code >= 1, "EXT1 code out of range: {}", code) => assert(code >= 1) /* @C04 */
-//@rewrite R14? process_stack_ops self.process_stack_ops($ARGS, Ghost(r), Ghost(RefArg { idx: 0 }))
+//@rewrite R14? process_stack_ops self.process_stack_ops($ARGS, Ghost(r), Ghost(RefArg { idx: 0 })); proof { if contig_pre(old(self)) { lemma_contig_step(old(self), self, $1, RefArg { idx: 0 }); } }
 //@before 1 self.post_process_emission(
         proof { g_out = self.output@; }
 //@before 1 Ok(())
@@ -2126,7 +2176,7 @@ pub fn get_random_module(&self, source: &mut GenerationSource) -> (r: Result<VfT
 //@arm Ext2
 //@subst debug_assert!(code >= 1, "EXT2 code out of range: {}", code) => assert(code >= 1) /* @C04 */
 //@substall code.to_le_bytes() => vf_u16_to_le_bytes(code)
-//@rewrite R14? process_stack_ops self.process_stack_ops($ARGS, Ghost(r), Ghost(RefArg { idx: 0 }))
+//@rewrite R14? process_stack_ops self.process_stack_ops($ARGS, Ghost(r), Ghost(RefArg { idx: 0 })); proof { if contig_pre(old(self)) { lemma_contig_step(old(self), self, $1, RefArg { idx: 0 }); } }
 //@before 1 self.post_process_emission(
         proof { g_out = self.output@; }
 //@before 1 Ok(())
@@ -2145,7 +2195,7 @@ pub fn get_random_module(&self, source: &mut GenerationSource) -> (r: Result<VfT
 //@arm Ext4
 //@subst debug_assert!(code > 0, "EXT4 code must be > 0, got {}", code) => assert(0 < code <= 0x7fff_ffff) /* @C04 */
 //@substall code.to_le_bytes() => vf_u32_to_le_bytes(code)
-//@rewrite R14? process_stack_ops self.process_stack_ops($ARGS, Ghost(r), Ghost(RefArg { idx: 0 }))
+//@rewrite R14? process_stack_ops self.process_stack_ops($ARGS, Ghost(r), Ghost(RefArg { idx: 0 })); proof { if contig_pre(old(self)) { lemma_contig_step(old(self), self, $1, RefArg { idx: 0 }); } }
 //@before 1 self.post_process_emission(
         proof { g_out = self.output@; }
 //@before 1 Ok(())
@@ -2163,7 +2213,7 @@ pub fn get_random_module(&self, source: &mut GenerationSource) -> (r: Result<VfT
         }
 //@arm PersID
 //@subst format!("pid_{}\n", source.gen_u32()) => vf_fmt_pid_nl(source.gen_u32())
-//@rewrite R14? process_stack_ops self.process_stack_ops($ARGS, Ghost(r), Ghost(RefArg { idx: 0 }))
+//@rewrite R14? process_stack_ops self.process_stack_ops($ARGS, Ghost(r), Ghost(RefArg { idx: 0 })); proof { if contig_pre(old(self)) { lemma_contig_step(old(self), self, $1, RefArg { idx: 0 }); } }
 //@after 1 self.output.extend_from_slice(arg_bytes);
                     proof { gtext = arg_bytes@; assert(self.output@.subrange(old(self).output@.len() as int + 1, self.output@.len() as int) =~= gtext);
                             assert(self.output@.len() == old(self).output@.len() + 1 + gtext.len()); }
@@ -2184,7 +2234,7 @@ pub fn get_random_module(&self, source: &mut GenerationSource) -> (r: Result<VfT
             Generator::lemma_emit_u(old(self), g_out, self.output@, old(self).output@.len());
         }
 //@arm Inst
-//@rewrite R14? process_stack_ops self.process_stack_ops($ARGS, Ghost(r), Ghost(RefArg { idx: 0 }))
+//@rewrite R14? process_stack_ops self.process_stack_ops($ARGS, Ghost(r), Ghost(RefArg { idx: 0 })); proof { if contig_pre(old(self)) { lemma_contig_step(old(self), self, $1, RefArg { idx: 0 }); } }
 //@after 1 self.output.extend_from_slice(arg_bytes);
                     proof { gtext = arg_bytes@; assert(self.output@.subrange(old(self).output@.len() as int + 1, self.output@.len() as int) =~= gtext);
                             assert(self.output@.len() == old(self).output@.len() + 1 + gtext.len()); }
@@ -2232,6 +2282,10 @@ pub fn get_random_module(&self, source: &mut GenerationSource) -> (r: Result<VfT
         let h = Generator::hdr_len(v, framed);
         // C04 C10: the body is a sequence of chunks, each nothing or exactly one well-formed, flag-respecting opcode
         &&& forall|i: int| 0 <= i < chunks.len() ==> o.chunk_ok_u(#[trigger] chunks[i])
+        // C11 in any mode (budgets below 2^31): T chunks with min <= T <= max(min, max), none of them empty
+        &&& (o.min_opcodes < 0x7fff_0000 && o.max_opcodes < 0x7fff_0000 ==>
+                o.min_opcodes <= chunks.len() && chunks.len() <= (if o.max_opcodes > o.min_opcodes { o.max_opcodes } else { o.min_opcodes })
+                && forall|i: int| 0 <= i < chunks.len() ==> (#[trigger] chunks[i]).len() > 0)
         &&& forall|i: int| 0 <= i < tail.len() ==> Generator::tail_op(#[trigger] tail[i].0, o.state.version)
         // header, FRAME (C06: also when unsafe rewrites happened, the length is patched after them), single trailing STOP
         &&& (v >= 2 ==> out.len() >= 2 && out[0] == 0x80 && out[1] == v)
@@ -2244,7 +2298,7 @@ pub fn get_random_module(&self, source: &mut GenerationSource) -> (r: Result<VfT
 
 //@fn src/generator/core.rs Generator::generate_internal as generate_internal_u
 //@ret res
-//@props C04 C06 C09 C10
+//@props C04 C06 C09 C10 C11
 //@sigsubst Result<Vec<u8>> => Result<Vec<u8>, VfError>
 //@rewrite R20
 //@rewrite R16
@@ -2284,7 +2338,14 @@ pub fn get_random_module(&self, source: &mut GenerationSource) -> (r: Result<VfT
                 self.rel(gr),
                 vf_i <= target_opcodes,
                 forall|i: int| 0 <= i < gch.len() ==> old(self).chunk_ok_u(#[trigger] gch[i]), // @C04 @C10
+                gch.len() == vf_i, // @C11
+                old(self).min_opcodes <= target_opcodes, // @C11
+                target_opcodes <= (if old(self).max_opcodes > old(self).min_opcodes { old(self).max_opcodes } else { old(self).min_opcodes }), // @C11
+                target_opcodes < 0x7fff_0000 ==> sim_contig(self) && self.state.memo@.len() <= vf_i
+                    && forall|i: int| 0 <= i < gch.len() ==> (#[trigger] gch[i]).len() > 0, // @C11
                 self.output@ == hdr0 + flat(gch), hdr0.len() == h, // @C06
+            ensures
+                gch.len() == target_opcodes, // @C11 (the early `break` on an empty candidate list is dead: the list is never empty)
             decreases target_opcodes - vf_i,
 //@after 1 let valid_ops = self.get_valid_opcodes(
             let ghost vops = valid_ops@;
@@ -2300,6 +2361,7 @@ pub fn get_random_module(&self, source: &mut GenerationSource) -> (r: Result<VfT
                 lemma_flat_push(gch, chunk);
                 assert(self.output@ =~= hdr0 + (flat(gch) + chunk));
                 assert(old(self).chunk_ok_u(chunk));
+                assert(target_opcodes < 0x7fff_0000 ==> chunk.len() > 0); // @C11
                 gch = gch.push(chunk);
                 gr = self.own_state();
                 self.lemma_own_rel();
@@ -2319,6 +2381,11 @@ pub fn get_random_module(&self, source: &mut GenerationSource) -> (r: Result<VfT
             assert(use_frame ==> vstd::bytes::spec_u64_from_le_bytes(out.subrange(3, 11)) == out.len() - 11); // @C06
             assert(out.len() >= h);
             assert(out.subrange(h, out.len() as int) =~= flat(gch) + codes(tail) + seq![0x2eu8]); // @C04 @C06
+            assert(gch.len() == target_opcodes as int); // @C11
+            assert(old(self).min_opcodes < 0x7fff_0000 && old(self).max_opcodes < 0x7fff_0000 ==> target_opcodes < 0x7fff_0000);
+            assert(old(self).min_opcodes < 0x7fff_0000 && old(self).max_opcodes < 0x7fff_0000 ==>
+                old(self).min_opcodes <= gch.len() && gch.len() <= (if old(self).max_opcodes > old(self).min_opcodes { old(self).max_opcodes } else { old(self).min_opcodes })
+                && forall|i: int| 0 <= i < gch.len() ==> (#[trigger] gch[i]).len() > 0); // @C11
             assert(self.gen_post_u(old(self), out, use_frame, gch, tail));
         }
 //@endfn
